@@ -42,6 +42,9 @@ class RuleContext:
         self.prop = prop
         self.eng = eng
         self.prog = eng.prog
+        from rules import hexlang
+
+        hexlang.use_engine(eng)
         self.tier = tier
         self.obligations = []
         self.notes = []
